@@ -196,7 +196,7 @@ class Runner:
 
 def read_impl(path):
     d = {}
-    for l in open(path):
+    for l in open(path, errors="replace"):
         f = l.rstrip("\n").split("\t")
         if len(f) == 2:
             d[f[0]] = f[1].split("|")
